@@ -21,22 +21,16 @@ let rec pts_of = function
   | x :: y :: r -> pt x y :: pts_of r
   | _ -> []
 
-(* `triangle.is_collapsed(0, offset) && offset == Right` is computed by the line-join code, which is not part of this
-   model; the value passed here is the observed characterisation (colinear vertices and StrokeAlignment::Inside), and
-   the correspondence run is what validates it *)
-let collapsed t align =
-  align = "0" && int_of_z (Triangle.area_doubled t) = 0
-
 let init () =
   register "tri_styled_w0" (function
     | [x1; y1; x2; y2; x3; y3; fill; stroke; align] ->
         let t = { Triangle.v1 = pt x1 y1; v2 = pt x2 y2; v3 = pt x3 y3 } in
-        list_out spix (Tristyled.tri_styled_pixels_w0 (style fill stroke "0" align) (collapsed t align) t)
+        list_out spix (Tristyled.tri_styled_pixels_w0 (style fill stroke "0" align) t)
     | _ -> "BAD-ARGS");
   register "tri_styled_w0_draw" (function
     | [x1; y1; x2; y2; x3; y3; fill; stroke; align] ->
         let t = { Triangle.v1 = pt x1 y1; v2 = pt x2 y2; v3 = pt x3 y3 } in
-        list_out scall (Tristyled.tri_draw_styled_w0 (style fill stroke "0" align) (collapsed t align) t)
+        list_out scall (Tristyled.tri_draw_styled_w0 (style fill stroke "0" align) t)
     | _ -> "BAD-ARGS");
   register "poly_styled_thin" (function
     | tx :: ty :: stroke :: width :: _n :: rest ->
